@@ -1244,7 +1244,7 @@ func (t *typeParser) parse() typeParserResult {
 	}
 
 	// interpret the AST
-	if strings.HasPrefix(ast.name, COMPOSITE_TYPE) {
+	if strings.HasPrefix(ast.name, COMPOSITE_TYPE) && len(ast.params) > 0 {
 		count := len(ast.params)
 
 		// look for a collections param
@@ -1254,6 +1254,10 @@ func (t *typeParser) parse() typeParserResult {
 			count--
 
 			for _, param := range last.class.params {
+				if param.name == nil {
+					t.logger.Printf("Error parsing type '%s', contains a collection without a name", t.input)
+					continue
+				}
 				// decode the name
 				var name string
 				decoded, err := hex.DecodeString(*param.name)
@@ -1278,7 +1282,7 @@ func (t *typeParser) parse() typeParserResult {
 
 		for i, param := range ast.params[:count] {
 			class := param.class
-			reversed[i] = strings.HasPrefix(class.name, REVERSED_TYPE)
+			reversed[i] = strings.HasPrefix(class.name, REVERSED_TYPE) && len(class.params) > 0
 			if reversed[i] {
 				class = class.params[0].class
 			}
@@ -1294,7 +1298,7 @@ func (t *typeParser) parse() typeParserResult {
 	} else {
 		// not composite, so one type
 		class := *ast
-		reversed := strings.HasPrefix(class.name, REVERSED_TYPE)
+		reversed := strings.HasPrefix(class.name, REVERSED_TYPE) && len(class.params) > 0
 		if reversed {
 			class = class.params[0].class
 		}
@@ -1309,7 +1313,7 @@ func (t *typeParser) parse() typeParserResult {
 }
 
 func (class *typeParserClassNode) asTypeInfo() TypeInfo {
-	if strings.HasPrefix(class.name, LIST_TYPE) {
+	if strings.HasPrefix(class.name, LIST_TYPE) && len(class.params) > 0 {
 		elem := class.params[0].class.asTypeInfo()
 		return CollectionType{
 			NativeType: NativeType{
@@ -1318,7 +1322,7 @@ func (class *typeParserClassNode) asTypeInfo() TypeInfo {
 			Elem: elem,
 		}
 	}
-	if strings.HasPrefix(class.name, SET_TYPE) {
+	if strings.HasPrefix(class.name, SET_TYPE) && len(class.params) > 0 {
 		elem := class.params[0].class.asTypeInfo()
 		return CollectionType{
 			NativeType: NativeType{
@@ -1327,7 +1331,7 @@ func (class *typeParserClassNode) asTypeInfo() TypeInfo {
 			Elem: elem,
 		}
 	}
-	if strings.HasPrefix(class.name, MAP_TYPE) {
+	if strings.HasPrefix(class.name, MAP_TYPE) && len(class.params) > 1 {
 		key := class.params[0].class.asTypeInfo()
 		elem := class.params[1].class.asTypeInfo()
 		return CollectionType{
@@ -1339,8 +1343,11 @@ func (class *typeParserClassNode) asTypeInfo() TypeInfo {
 		}
 	}
 
-	// must be a simple type or custom type
+	// must be a simple type or custom type (a collection class without its parameters is kept as custom)
 	info := NativeType{typ: getApacheCassandraType(class.name)}
+	if info.typ == TypeList || info.typ == TypeSet || info.typ == TypeMap {
+		info.typ = TypeCustom
+	}
 	if info.typ == TypeCustom {
 		// add the entire class definition
 		info.custom = class.input
@@ -1392,7 +1399,14 @@ func (t *typeParser) parseParamNodes() (params []typeParserParamNode, ok bool) {
 
 	t.skipWhitespace()
 
-	for t.input[t.index] != ')' {
+	for {
+		if t.index >= len(t.input) {
+			// unterminated parameter list
+			return nil, false
+		}
+		if t.input[t.index] == ')' {
+			break
+		}
 		// look for a named param, but if no colon, then we want to backup
 		backupIndex := t.index
 
@@ -1407,7 +1421,7 @@ func (t *typeParser) parseParamNodes() (params []typeParserParamNode, ok bool) {
 
 		t.skipWhitespace()
 
-		if t.input[t.index] == ':' {
+		if t.index < len(t.input) && t.input[t.index] == ':' {
 			// there is a name for this parameter
 
 			// consume the ':'
@@ -1440,7 +1454,7 @@ func (t *typeParser) parseParamNodes() (params []typeParserParamNode, ok bool) {
 
 		t.skipWhitespace()
 
-		if t.input[t.index] == ',' {
+		if t.index < len(t.input) && t.input[t.index] == ',' {
 			// consume the comma
 			t.index++
 
